@@ -278,8 +278,8 @@ def check(run):
     run.notes['analytic_twin_runs'] = twins
     # histories: a numerical Jacobian is taken at the CURRENT poses also after optimizer runs and the user's edits (clause query-fresh)
     from .. import scenario
-    scenario.histories(run, ['se2c', 'se3c', 'r2c', 'se2inplace', 'se3inplace', 'mixed'], 60 if run.tier == 'thorough' else 8, 14,
-                       lambda cl, ev: cl == 'query-fresh' and ev.get('q') in ('edge_jacobians', 'edge_contribs') and ev['edges'] and ev['edges'][(ev['target'] - 1) % len(ev['edges'])]['cls'] == 'custom')
+    scenario.histories(run, ['se2c', 'se3c', 'r2c', 'se2inplace', 'se3inplace', 'mixed', 'se2', 'se3'], 60 if run.tier == 'thorough' else 8, 14,
+                       lambda cl, ev: cl == 'query-fresh' and (ev.get('q') == 'edge_numjac' or (ev.get('q') in ('edge_jacobians', 'edge_contribs') and ev['edges'] and ev['edges'][(ev['target'] - 1) % len(ev['edges'])]['cls'] == 'custom')))
     run.rule = ('(i) lattice graphs carrying custom edges (unary prior, relative pose, range at Pythagorean separations, 3-vertex midpoint) over all pose kinds, '
                 'translations up to 4e3: TLC differentiates each error exactly (dual numbers, exact sqrt), BaseEdge.calc_jacobians() (forward difference 1e-6) must '
                 'agree within 2e-5*(1+scale) and restore every pose bitwise; (ii) graphs whose odometry edges are replaced by numerically differentiated twins must '
